@@ -45,6 +45,10 @@ class BaseInvocation(ABC, Generic[Params, Result]):
     :param Call[Params, Result] call: The specific call instance that this invocation represents.
     """
 
+    # Deterministic workflow executor of the execution of the task body that is currently
+    # running for this invocation object; reset at the start of every execution.
+    wf_deterministic_executor: Any = None
+
     def __init__(
         self,
         call: Call[Params, Result],
